@@ -271,9 +271,7 @@ def run(ctx: Ctx, env):
     um = repo.modules.get("odata_query.django.utils")
     if um and "reverse_relationship" in um.functions:
         fn = um.functions["reverse_relationship"]
-        src = ast.unparse(fn)
-        ok = "reversed(" in src and ".split('__')" in src and "remote_field" in src
-        ctx.check(ok, "R5.reverse-relationship", "reverse_relationship", "the correlation path must be the remote field names of the steps, reversed", um.loc(fn))
+        _reverse_relationship(ctx, env, um, fn)
     ctx.assume("per-parent correlation of subqueries, many-to-many semantics and run-time agreement of both ORMs are not decided")
     ctx.trust("meaning table: Exists(q)/rel.any(c) = exists, q.filter(c) = and, ~x/not_ = not; Django constructor signatures read from the installed source")
 
@@ -302,3 +300,82 @@ class _SubCtx:
 
     def __getattr__(self, name):
         return getattr(self._ctx, name)
+
+
+def _reverse_relationship(ctx: Ctx, env, um, fn):
+    """reverse_relationship(path, root) evaluated: the result must be ('__'.join(<remote field names of the hops, in reverse
+    hop order>), <model reached by the last hop>), the hops being the '__'-separated segments of the path, each looked up on the
+    model the previous hop reached."""
+    from ..values import AltV, PyTuple, Str, Sym, Const
+    params = [a.arg for a in fn.args.args]
+    if len(params) != 2:
+        raise AnalysisError("reverse_relationship no longer takes (path, root model)", um.loc(fn))
+    it = env.interp()
+    paths = it.explore(lambda i: (um, fn, [Sym("param", params[0], hint="str"), Sym("param", params[1])], {}, None))
+    rets = [p for p in paths if p.outcome == "return"]
+    ctx.floor("reverse_relationship: returning paths", len(rets), 1)
+
+    def is_segment(v) -> bool:
+        return isinstance(v, Sym) and v.op == "splitpart" and v.args[1] == "__" and repr(v.args[0]) == repr(Sym("param", params[0], hint="str"))
+
+    def field_lookup(v):
+        """<M>._meta.get_field(<segment>) -> M"""
+        if isinstance(v, Sym) and v.op == "call" and isinstance(v.args[0], Sym) and v.args[0].op == "attr" and v.args[0].args[1] == "get_field" \
+                and len(v.args[1]) == 1 and is_segment(v.args[1][0]):
+            meta = v.args[0].args[0]
+            if isinstance(meta, Sym) and meta.op == "attr" and meta.args[1] == "_meta":
+                return meta.args[0]
+        return None
+
+    def model_kind(m) -> Optional[str]:
+        if repr(m) == repr(Sym("param", params[1])):
+            return "root"
+        if isinstance(m, Sym) and m.op == "attr" and m.args[1] == "related_model" and field_lookup(m.args[0]) is not None:
+            return "reached"
+        return None
+
+    def remote_name(v) -> Optional[str]:
+        """<field>.remote_field.name -> which model the field was looked up on"""
+        if isinstance(v, Sym) and v.op == "attr" and v.args[1] == "name" and isinstance(v.args[0], Sym) and v.args[0].op == "attr" \
+                and v.args[0].args[1] == "remote_field":
+            m = field_lookup(v.args[0].args[0])
+            return model_kind(m) if m is not None else None
+        return None
+
+    for p in rets:
+        v = p.value
+        key = "reverse_relationship"
+        where = um.loc(fn)
+        if not (isinstance(v, PyTuple) and len(v.items) == 2):
+            ctx.fail("R5.reverse-relationship", key, f"returns {v!r}, not (reverse path, related model)", where)
+            return
+        path, model = v.items
+        good = isinstance(path, Str) and len(path.parts) == 1 and path.parts[0][0] == "join" and isinstance(path.parts[0][1], Const) \
+            and path.parts[0][1].v == "__"
+        why = "the correlation path is not '__'.join(...) of one sequence"
+        if good:
+            elem, over = path.parts[0][2], path.parts[0][3]
+            opts = list(elem.options) if isinstance(elem, AltV) else [elem]
+            kinds = [remote_name(o) for o in opts]
+            if None in kinds or "root" not in kinds:
+                good, why = False, "the joined names are not `<field looked up on the current model>.remote_field.name` starting at the root model"
+            elif "reached" not in kinds:
+                good, why = False, "later hops are not looked up on the model the previous hop reached"
+            elif not getattr(over, "rev", False):
+                good, why = False, "the remote field names are joined in hop order; the path back to the parent needs them reversed"
+        if good:
+            cands = [model]
+            if isinstance(model, Sym) and model.op in ("item", "elem") and len(model.args) == 2:
+                # the last element of the sequence of models reached, hop by hop
+                base, idx = model.args
+                idx = idx.v if isinstance(idx, Const) else idx
+                from ..values import PyList as _PL
+                if idx == -1 and isinstance(base, _PL) and not base.items and base.loop_parts and not getattr(base, "rev", False):
+                    cands = [x for _, per in base.loop_parts for x in per]
+                elif idx == -1 and hasattr(base, "elem") and not getattr(base, "rev", False):
+                    cands = list(base.elem.options) if isinstance(base.elem, AltV) else [base.elem]
+                else:
+                    cands = [None]
+            if not cands or any(model_kind(c) != "reached" for c in cands):
+                good, why = False, f"the second result is {model!r:.160}, not the model reached by the last hop"
+        ctx.check(good, "R5.reverse-relationship", key, f"reverse_relationship: {why}", where, "comments/any(c: c/content eq 'x') on Author (two hops: through blogposts)")
